@@ -12,6 +12,7 @@ import (
 	"verif/seq/props/c04"
 	"verif/seq/props/c05"
 	"verif/seq/props/c07"
+	"verif/seq/props/c09"
 	"verif/seq/props/c15"
 	"verif/seq/props/c16"
 	"verif/seq/props/c17"
@@ -30,6 +31,7 @@ var table = map[string]entry{
 	"C04": {"exploration", c04.Run},
 	"C05": {"exploration", c05.Run},
 	"C07": {"model_checking", c07.Run},
+	"C09": {"exploration", c09.Run},
 	"C15": {"exploration", c15.Run},
 	"C16": {"exploration", c16.Run},
 	"C17": {"exploration", c17.Run},
@@ -38,6 +40,7 @@ var table = map[string]entry{
 }
 
 func main() {
+	c09.MaybeWorker() // C09 measures in re-exec'd worker subprocesses of this binary
 	if len(os.Args) < 3 {
 		fmt.Fprintln(os.Stderr, "usage: seqmc <property> <quick|thorough>")
 		os.Exit(2)
